@@ -93,10 +93,9 @@ def node_of_function(fn):
         if len(cands) >= 1:
             return mi, cands[0]
         return None
-    node = mi.by_qual.get(fn.__qualname__)
-    if node is None:
-        cands = [n for n in mi.by_line.get(code.co_firstlineno, []) if getattr(n, 'name', None) == fn.__name__]
-        node = cands[0] if cands else None
+    # several defs may share a qualname (property getter / setter): locate by line first
+    cands = [n for n in mi.by_line.get(code.co_firstlineno, []) if getattr(n, 'name', None) == fn.__name__]
+    node = cands[0] if cands else mi.by_qual.get(fn.__qualname__)
     if node is None:
         return None
     return mi, node
